@@ -1,5 +1,5 @@
 (* C05 — @memoize never changes what is accepted or the tree that is returned. *)
-From PegV Require Import Utf8 State Terminals Syntax Fields Literals Model Inv Memo Spec Sim Conform ConformX Extracted.
+From PegV Require Import Utf8 State Terminals Syntax Fields Literals Model Inv Memo MemoEq Spec Sim Conform ConformX Extracted.
 
 Theorem C05_facts :
   Extracted.file_codegen_src_rule_rs = true /\ Extracted.file_codegen_src_grammar_mod_rs = true /\
@@ -59,3 +59,59 @@ Theorem C05_unmarked_reference :
         (s_parse Extracted.fcfg shk g true fuel rule_name cs).
 Proof. exact conform_x. Qed.
 Print Assumptions C05_unmarked_reference.
+
+(* The whole-grammar theorem.  For every grammar without @leftrec rules, any
+   subset of rules marked @memoize, hooks whose results do not depend on the
+   user state, every input, rule and pair of recursion bounds: the parser of the
+   grammar and the parser of the grammar with all @memoize markers removed -
+   whenever both return - accept alike, return the same tree and stop at the
+   same offset (the error detail may differ).  It holds for every setting of
+   the decision points of the source (no fact of Extracted.v is needed). *)
+Definition same_outcome (a b : mres value) : Prop :=
+  match a, b with
+  | MOk v1 s1, MOk v2 s2 => v1 = v2 /\ rest s1 = rest s2 /\ off s1 = off s2
+  | MErr _, MErr _ => True
+  | MPanic _, MPanic _ => True
+  | MFuel, _ | _, MFuel => True
+  | _, _ => False
+  end.
+
+Theorem C05_transparent :
+  forall (ustate : Type) (scfg : state_cfg) (tcfg : term_cfg) (fcfg : fields_cfg) (rcfg : rule_cfg)
+         (hk : hooks ustate) (g : grammar) (input : bytes),
+    (forall r, In (GRule r) g -> fl_left_recursive (flags_of (r_directives r)) = false) ->
+    (forall f v u u', fst (h_check hk f v u) = fst (h_check hk f v u')) ->
+    (forall f bs u u', fst (h_extern hk f bs u) = fst (h_extern hk f bs u')) ->
+    forall n m rule_name u u',
+      same_outcome (fst (m_parse ustate scfg tcfg fcfg rcfg hk g n rule_name input u))
+                   (fst (m_parse ustate scfg tcfg fcfg rcfg hk (strip g) m rule_name input u')).
+Proof.
+  intros ustate scfg tcfg fcfg rcfg hk g input H1 H2 H3 n m rule_name u u'.
+  pose proof (memoize_transparent ustate scfg tcfg fcfg rcfg hk g input H1 H2 H3 n m rule_name u u') as W.
+  destruct (fst (m_parse ustate scfg tcfg fcfg rcfg hk g n rule_name input u)) as [v1 s1|e1|p1|];
+    destruct (fst (m_parse ustate scfg tcfg fcfg rcfg hk (strip g) m rule_name input u')) as [v2 s2|e2|p2|];
+    cbn in *; try exact I; try contradiction.
+  destruct W as [-> [R1 R2]]. auto.
+Qed.
+Print Assumptions C05_transparent.
+
+(* any two markings of the same grammar: both agree with the unmarked grammar *)
+Corollary C05_any_two_markings :
+  forall (ustate : Type) (scfg : state_cfg) (tcfg : term_cfg) (fcfg : fields_cfg) (rcfg : rule_cfg)
+         (hk : hooks ustate) (g1 g2 : grammar) (input : bytes),
+    strip g1 = strip g2 ->
+    (forall r, In (GRule r) g1 -> fl_left_recursive (flags_of (r_directives r)) = false) ->
+    (forall r, In (GRule r) g2 -> fl_left_recursive (flags_of (r_directives r)) = false) ->
+    (forall f v u u', fst (h_check hk f v u) = fst (h_check hk f v u')) ->
+    (forall f bs u u', fst (h_extern hk f bs u) = fst (h_extern hk f bs u')) ->
+    forall n1 n2 m rule_name u1 u2 u v s,
+      fst (m_parse ustate scfg tcfg fcfg rcfg hk (strip g1) m rule_name input u) = MOk v s ->
+      same_outcome (fst (m_parse ustate scfg tcfg fcfg rcfg hk g1 n1 rule_name input u1)) (MOk v s) /\
+      same_outcome (fst (m_parse ustate scfg tcfg fcfg rcfg hk g2 n2 rule_name input u2)) (MOk v s).
+Proof.
+  intros ustate scfg tcfg fcfg rcfg hk g1 g2 input E L1 L2 H2 H3 n1 n2 m rule_name u1 u2 u v s HB.
+  split.
+  - rewrite <- HB. apply C05_transparent; assumption.
+  - rewrite <- HB, E. apply C05_transparent; assumption.
+Qed.
+Print Assumptions C05_any_two_markings.
